@@ -12,7 +12,7 @@
 //                   ("all report convergence => solutions agree to 10 kappa tol").
 // product() switches from the marker algorithm to row-merge above 16 threads (design finding F5): outputs that
 // depend on it are compared bitwise inside {<=16} and inside {>16}; a difference between the two groups is
-// reported under the distinct key suffix ':bitwise-across-spgemm-switch' and bounded by a forward rounding bound.
+// reported under the distinct keys '(product|hierarchy|cycle):saad-vs-rmerge-rounding' and bounded by a forward rounding bound.
 #include <amgcl/backend/builtin.hpp>
 #include <amgcl/adapter/crs_tuple.hpp>
 #include <amgcl/amg.hpp>
@@ -201,7 +201,8 @@ static void compare(Cmp &k, const std::string &name, int ta, const Out &a, int t
     bool cross_group = a.spgemm && group_of(ta) != group_of(tb) && !(in.integer && a.exact_on_integer);
     bool cross_form = a.formdep && form_of(ta) != form_of(tb);
     if (cross_group || cross_form) {
-        if (cross_group) k.fail(name + ":bitwise-across-spgemm-switch", "output differs bitwise between <= 16 and > 16 threads (product() switches from the marker algorithm to row-merge)", d);
+        // design finding F5: one stable key per output family (direct product / hierarchy / cycle), the output name goes into the detail
+        if (cross_group) k.fail(std::string(name.compare(0, 5, "hier.") == 0 ? "hierarchy" : name.compare(0, 6, "cycle.") == 0 ? "cycle" : "product") + ":saad-vs-rmerge-rounding", "output differs bitwise between <= 16 and > 16 threads (product() switches from the marker algorithm to row-merge)", d);
         if (!a.vals.empty()) { double md = 0, ex = max_excess(a, b, &md); vf::obs_max(cross_group ? "across_spgemm_switch_max_diff_over_bound" : "ilu_across_form_max_diff_over_bound", ex);
             if (!(ex <= 1)) k.fail(name + (cross_group ? ":beyond-rounding-across-spgemm-switch" : ":beyond-rounding-across-form") + a.tag, "difference across the algorithm switch exceeds the rounding bound", J(d).n("excess", ex).n("max_abs_diff", md)); }
         return;
